@@ -92,6 +92,7 @@ class C04(PropertyCheck):
             "exhaustive": gen_c04.exhaustive(2 if q else 3, "x", ("volatile-lru",) if q else ("noeviction", "volatile-lru")),
             "random": [gen_c04.random_history(rng, "r%d" % i, 30, False, gen_c04.POLICIES[i % 7]) for i in range(700 if q else 10000)],
             "malformed": [gen_c04.random_history(rng, "m%d" % i, 14, True, gen_c04.POLICIES[i % 7]) for i in range(200 if q else 3000)],
+            "boundary": gen_c04.boundary_histories(),
         }
         out = {}
         self.n_histories = sum(len(v) for v in base.values())
@@ -110,7 +111,8 @@ class C04(PropertyCheck):
                 "EXPIRE PEXPIRE EXPIREAT PEXPIREAT x {none NX XX GT LT} with targets around the clock and around pending deadlines "
                 "(<, =, >), PERSIST, SET with NX XX GET EX PX EXAT PXAT in any order, GETEX with every option, writes and "
                 "existence-conditional writes of every module, reads of every module, FLUSHDB/FLUSHALL, clock advances to "
-                "deadline-1, deadline, deadline+1 of a pending deadline; start times that are not whole seconds; all 7 eviction policy "
+                "deadline-1, deadline, deadline+1 of a pending deadline; start times that are not whole seconds; every relative-time form at the limits "
+                "of the range time.Duration carries exactly (+-9223372036 s, +-9223372036854 ms, one and a thousand below); all 7 eviction policy "
                 "names with maxmem 0; each history run lazy-only and with sampler passes (sample 1 2 3 20). distinct = canonical script text; "
                 "non-trivial = a clock advance and a successful write")
 
